@@ -20,7 +20,7 @@ theorem reify_gone {p : Nat} {m : M Val} (h : GoneNSP p m) : HGone p (reify m) (
   obtain ⟨s', hr, hc', hk'⟩ := h c s k0 ha hg hk hc
   exact ⟨.error (.nsp p), f, s', by simp only [reify, hr], by simp [IsNSP], hf, hc', hk'⟩
 
-variable (r : Bool)
+variable (r : Host)
 
 /-- is_running() on a gone process answers False and leaves `_gone` or `_pid_reused` set -/
 theorem isRunningH_gone (o : Obj) (f : Flags) (c : Ctx) (s : St) (k0 : Nat) (ha : Adm c) (hg : PGone c o.pid k0)
